@@ -81,6 +81,7 @@ def build(U):
     T = T.replace('pub struct RangeList(Vec<Range>);', 'pub struct RangeList(pub Vec<Range>);').replace('pub struct Range(usize, usize);', 'pub struct Range(pub usize, pub usize);')
     U.add(T)
     U.prelude('range_spec.rs')
+    U.prelude('epoch_spec.rs')
     U.add(compact_slots.SPEC)
     U.add(SPEC)
     U.prelude('commit_spec.rs')
